@@ -64,7 +64,7 @@ func init() {
 func init() {
 	props["C08"] = propSpec{
 		level: "exploration",
-		rule: "seeded broker runs: back-end {channel, unlimited Queue, unlimited Deque, bounded Deque, bounded Queue, LIFO} x ParallelDispatch x WorkerPoolSize {0,1,2,4; 8/32/96 on channel and Queue back-ends} x BufferSize {0,1,8} x 1-4 publishers x 1-400 messages (unique ids) x " +
+		rule: "seeded broker runs: back-end {channel, unlimited Queue, unlimited Deque, bounded Deque, bounded Queue, LIFO} (a third built by the library's own NewBroker / NewQueueBroker / NewDequeBroker / NewLIFOBroker, the rest over a counting distributor) x ParallelDispatch x WorkerPoolSize {0,1,2,4; 8/32/96 on channel and Queue back-ends} x BufferSize {0,1,8} x 1-4 publishers (a quarter of them hand an iterator to Broker.Populate) x 1-400 messages (unique ids) x " +
 			"subscribers {static, late joiners, early leavers, 1-3 churners that keep subscribing and unsubscribing fresh channels while the messages flow} with speed profiles x delay injected between pop and dispatch (wrapping distributor) x GOMAXPROCS; oracle: every configuration - received subset of published, no id twice; " +
 			"lossless configurations (BufferSize 0; channel / unlimited queue / unlimited deque) - every message whose Publish was called after a subscriber's Subscribe returned is received by it (decided at quiescence when missing); " +
 			"single dispatch worker - every subscriber preserves each publisher's order and all subscribers agree on one order. distinct_nontrivial = distinct configurations of runs with >= 2 subscribers, >= 2 publishers and >= 2 publisher interleavings in the witness order",
@@ -81,7 +81,7 @@ func init() {
 			"(a) progress - bursts {1,2,10,100} x 1-4 rounds x 1-3 publishers while 1-3 subscribers keep reading: publishers return, accepted==popped, depth 0 and every popped message reaches every subscriber (unmet => decided at quiescence); " +
 			"(b) shutdown - stop point {idle, mid-dispatch with a non-reading subscriber, mid-publish, backlog} x {Stop, cancel parent} x Wait started before/after: Wait returns, pending calls return once their context ends, no broker goroutine in the census, " +
 			"Publish/Subscribe/Unsubscribe/Stats return after their context is cancelled; (c) 20-80 Stats calls whose context ends between request and reply (a context that flips after its first Done() call, and racing cancels) followed by a health probe; " +
-			"(d) hook: Stop/cancel landing between the idle dispatcher's predicate check and cond.Wait. distinct_nontrivial = distinct (mode, back-end, options, stop point/how/burst, GOMAXPROCS) decided",
+			"(d) hook: Stop/cancel landing between the idle dispatcher's predicate check and cond.Wait; (e) trickle: one constructor-built broker, 3000 awaited bursts of 1-2 messages (a message that waits for the next publish is stuck); (f) fill: 60 short-lived brokers per case whose 2-8 workers race for the last slots of an undrained buffered subscription, then Stop / cancel: Wait returns, nothing is left. distinct_nontrivial = distinct (mode, back-end, options, stop point/how/burst, GOMAXPROCS) decided",
 		assumptions: append([]string{"scenarios use no timers; verdicts on unmet expectations only at quiescence",
 			"Deque-backed brokers with >= 2 dispatch workers never become quiescent: unmet expectations there are counted as skipped"}, commonAssumptions...),
 		floorEvals:    100,
